@@ -368,16 +368,16 @@ type AnchorAssert struct {
 
 // AnchorSet: ghost assignment "set g = expr after store X" / "after send ch".
 type AnchorSet struct {
-	Ghost string
-	Expr  CExpr
-	Src   string
-	Store string
-	Send  string
-	Recv  string // "after recv CH": executed after a receive from CH (recv / recvok are bound)
-	Call  string // "at call NAME": executed just before a call of NAME (the callee's parameter names are bound)
+	Ghost     string
+	Expr      CExpr
+	Src       string
+	Store     string
+	Send      string
+	Recv      string // "after recv CH": executed after a receive from CH (recv / recvok are bound)
+	Call      string // "at call NAME": executed just before a call of NAME (the callee's parameter names are bound)
 	AfterCall string // "after call NAME": executed when the call returns (parameters and result / result0.. are bound)
 	Optional  bool   // "... optional": the trigger need not occur in the function (no dead-anchor report)
-	Loop  int    // "at loop k": executed at the head of loop k on every iteration
+	Loop      int    // "at loop k": executed at the head of loop k on every iteration
 }
 
 // ChanContract: assumed on every value received from the named channel ("recv" is the value).
@@ -392,42 +392,43 @@ type GhostVar struct {
 }
 
 type FuncContract struct {
-	Key      string // Name, Recv.Name, pkg.Name for externals; closures Name$k
-	PkgPath  string
-	Mode     Mode
-	ModeSet  bool
-	Props    []string
-	NoPanic  bool
-	Trusted  bool // contract assumed, body not checked
-	Inline   bool
-	ParamNames  []string
-	ResultNames []string
-	Requires []*Clause
-	Ensures  []*Clause
-	Modifies []string
-	HasModifies bool
-	Loops    map[int]*LoopContract
-	Asserts  []*AnchorAssert
-	Sets     []*AnchorSet
-	Chans    []*ChanContract
-	Ghosts   []*GhostVar
-	Opaque   []string // spec functions kept uninterpreted in this function's VCs unless revealed by a clause
-	File     string
-	Line     int
-	Notes    []string
-	Assumes  []*Clause // explicit assumptions (listed in evidence)
-	Replay   string
-	IsLemma  bool
-	IsLua    bool
-	LuaOf    string
+	Key           string // Name, Recv.Name, pkg.Name for externals; closures Name$k
+	PkgPath       string
+	Mode          Mode
+	ModeSet       bool
+	Props         []string
+	NoPanic       bool
+	Trusted       bool // contract assumed, body not checked
+	Inline        bool
+	ParamNames    []string
+	ResultNames   []string
+	Requires      []*Clause
+	Ensures       []*Clause
+	Modifies      []string
+	HasModifies   bool
+	Loops         map[int]*LoopContract
+	Asserts       []*AnchorAssert
+	Sets          []*AnchorSet
+	Chans         []*ChanContract
+	Ghosts        []*GhostVar
+	Opaque        []string // spec functions kept uninterpreted in this function's VCs unless revealed by a clause
+	File          string
+	Line          int
+	Notes         []string
+	Assumes       []*Clause // explicit assumptions (listed in evidence)
+	StableAssumes []*Clause // set only by the known-finding re-proof: assumed at entry and after every whole-heap havoc
+	Replay        string
+	IsLemma       bool
+	IsLua         bool
+	LuaOf         string
 }
 
 type ContractFile struct {
-	Path    string
-	PkgPath string
-	Funcs   []*FuncContract
-	Trusted []string // textual notes of trusted/assume/axiom lines
-	Axioms  []*Clause
+	Path     string
+	PkgPath  string
+	Funcs    []*FuncContract
+	Trusted  []string // textual notes of trusted/assume/axiom lines
+	Axioms   []*Clause
 	SpecOpts map[string][]string // spec function name -> options (opaque, ...)
 	Preds    map[string]*Pred
 }
